@@ -157,7 +157,11 @@ pub fn check_v5(enc: &v5::codec::Encoded, payload: &Option<Bytes>, out: &mut Vec
     let _ = rl;
     let c = v5::codec::Codec::new();
     let mut src = BytesMut::copy_from_slice(&bytes);
-    match std::panic::catch_unwind(std::panic::AssertUnwindSafe(|| c.decode(&mut src))) {
+    let announced__ = src.to_vec();
+    crate::check::b_enter("Codec::decode", &announced__);
+    let decoded__ = std::panic::catch_unwind(std::panic::AssertUnwindSafe(|| c.decode(&mut src)));
+    crate::check::b_leave();
+    match decoded__ {
         Ok(Ok(Some(d))) => {
             let size = match &d {
                 Decoded::Packet(_, s) | Decoded::Publish(_, _, s) => *s as usize,
@@ -211,7 +215,11 @@ pub fn check_v5(enc: &v5::codec::Encoded, payload: &Option<Bytes>, out: &mut Vec
             let rb = rf::encode(Ver::V5, &v);
             let c = v5::codec::Codec::new();
             let mut src = BytesMut::copy_from_slice(&rb);
-            match std::panic::catch_unwind(std::panic::AssertUnwindSafe(|| c.decode(&mut src))) {
+            let announced__ = src.to_vec();
+            crate::check::b_enter("Codec::decode", &announced__);
+    let decoded__ = std::panic::catch_unwind(std::panic::AssertUnwindSafe(|| c.decode(&mut src)));
+    crate::check::b_leave();
+    match decoded__ {
                 Ok(Ok(Some(d))) if same(&d) && src.is_empty() => {}
                 other => {
                     out.push(fnd(
@@ -267,7 +275,11 @@ pub fn check_v3(enc: &v3::codec::Encoded, payload: &Option<Bytes>, out: &mut Vec
     for (which, b) in [("roundtrip", bytes.clone()), ("spec-bytes", rf::encode(Ver::V3, &want_ref))] {
         let c = v3::codec::Codec::new();
         let mut src = BytesMut::copy_from_slice(&b);
-        match std::panic::catch_unwind(std::panic::AssertUnwindSafe(|| c.decode(&mut src))) {
+        let announced__ = src.to_vec();
+        crate::check::b_enter("Codec::decode", &announced__);
+    let decoded__ = std::panic::catch_unwind(std::panic::AssertUnwindSafe(|| c.decode(&mut src)));
+    crate::check::b_leave();
+    match decoded__ {
             Ok(Ok(Some(d))) => {
                 let size = match &d {
                     Decoded::Packet(_, s) | Decoded::Publish(_, _, s) => *s as usize,
@@ -307,7 +319,10 @@ pub fn check_varint(n: u32, out: &mut Vec<Finding>) {
                 want.extend_from_slice(&body);
                 let cd = c::Codec::new();
                 let mut src = BytesMut::copy_from_slice(&b);
+                let announced__ = src.to_vec();
+                crate::check::b_enter("Codec::decode", &announced__);
                 let back = cd.decode(&mut src);
+                crate::check::b_leave();
                 let ok = matches!(&back, Ok(Some(c::Decoded::Packet(p, _))) if *p == sub);
                 if b != want || !ok {
                     out.push(fnd(
@@ -338,14 +353,22 @@ pub fn check_varint(n: u32, out: &mut Vec<Finding>) {
             let (ps, sz) = if ver == 5 {
                 let cd = c::Codec::new();
                 cd.set_min_chunk_size(1 << 30);
-                match std::panic::catch_unwind(std::panic::AssertUnwindSafe(|| cd.decode(&mut src))) {
+                let announced__ = src.to_vec();
+                crate::check::b_enter("Codec::decode", &announced__);
+    let decoded__ = std::panic::catch_unwind(std::panic::AssertUnwindSafe(|| cd.decode(&mut src)));
+    crate::check::b_leave();
+    match decoded__ {
                     Ok(Ok(Some(c::Decoded::Publish(p, _, sz)))) => (p.payload_size as i64, sz as i64),
                     _ => (-1, -1),
                 }
             } else {
                 let cd = v3::codec::Codec::new();
                 cd.set_min_chunk_size(1 << 30);
-                match std::panic::catch_unwind(std::panic::AssertUnwindSafe(|| cd.decode(&mut src))) {
+                let announced__ = src.to_vec();
+                crate::check::b_enter("Codec::decode", &announced__);
+    let decoded__ = std::panic::catch_unwind(std::panic::AssertUnwindSafe(|| cd.decode(&mut src)));
+    crate::check::b_leave();
+    match decoded__ {
                     Ok(Ok(Some(v3::codec::Decoded::Publish(p, _, sz)))) => (p.payload_size as i64, sz as i64),
                     _ => (-1, -1),
                 }
